@@ -2137,8 +2137,17 @@ breaker('C16', 'ds-begin-ignores-base-tid', 'C16.R10', DSPY,
         'DemoStorage.tpc_begin',
         '''                last = self.base.lastTransaction()
                 if last > self.changes.lastTransaction():
-                    a = (ZODB.utils.newTid(last),)''',
+                    k.pop('tid', None)
+                    a = (ZODB.utils.newTid(last),) + a[1:]''',
         '''                pass''')
+breaker('C16', 'ds-begin-only-without-arguments', 'C16.R10', DSPY,
+        'DemoStorage.tpc_begin',
+        '''            if (a[0] if a else k.get('tid')) is None:''',
+        '''            if not a and 'tid' not in k:''')
+twin('C16', 'ds-begin-id-in-local', DSPY, 'DemoStorage.tpc_begin',
+     '''            if (a[0] if a else k.get('tid')) is None:''',
+     '''            given = a[0] if a else k.get('tid')
+            if not given is not None:''')
 
 # F50 / F51 (stale data-file handles around a pack)
 breaker('C08', 'pool-checkin-outside-condition', 'C02.R8', FSPY,
